@@ -111,7 +111,7 @@ for _prop in ("C01", "C02"):
     scenario(_prop, [GS + "._sample_points", PS + "._sample_params_independent", PS + ".set_length"], configs=["indep/none", "indep/K"])(_gsi)
 
 
-def acc_points_loop(S, var, space_keys, n, ncols, P, label):
+def acc_points_loop(S, var, space_keys, n, ncols, P, label, initial="none"):
     """loop contract for   acc = None; for i in range(K): acc = acc | block_i   (all blocks with n rows):
     invariant: i == 0 and acc is None,  or  acc is a Points with rows [i, n] all satisfying P(k, j, row)"""
     I = S.I
@@ -119,7 +119,7 @@ def acc_points_loop(S, var, space_keys, n, ncols, P, label):
     def make(I_, env, i):
         iz = zint(i)
         if I_.decide(iz == 0):
-            env.vars[var] = None
+            env.vars[var] = None if initial == "none" else S.call(S.getattr(S.find(POINTS), "empty"))
             return
         rows = Dim([iz, zint(n)])
 
@@ -147,7 +147,7 @@ def acc_points_loop(S, var, space_keys, n, ncols, P, label):
         iz = zint(i)
         v = env.vars.get(var, "<unset>")
         if isinstance(i, int) and i == 0:
-            S.ensure(f"{label}/{tag}:accumulator-starts-empty", v is None, kind="inv")
+            S.ensure(f"{label}/{tag}:accumulator-starts-empty", (v is None) if initial == "none" else (hasattr(v, "f") and "_t" in v.f and v.f["_t"].val.numel_concrete() == 0), kind="inv")
             return
         isp = v is not None and v != "<unset>" and hasattr(v, "f") and "_t" in v.f
         S.ensure(f"{label}/{tag}:accumulator-is-a-point-set", isp, kind="inv")
@@ -294,3 +294,90 @@ def data_sampler(S):
     S.ensure("rows-grouped-by-parameter-row", grouped)
     if grouped:
         S.forall("data-point-and-parameter-row", t, lambda q: z3.And(zreal(t.at([q[0], (2,)])) == zreal(T.val.at([(q[0][0],), ()])), zreal(t.at([q[0], (0,)])) == zreal(X.val.at([(q[0][1],), (0,)]))))
+
+
+# ----------------------------------------------------------------------------- filter paths
+def filtered_points_loop(S, var, count_var, extra_vars, space_keys, ncols, P, label, cur_i):
+    """while-loop contract for rejection with a filter:
+       invariant: `var` is None (and the count is 0) or a Points whose M >= 0 rows all satisfy P(i, row),
+       and count == M.  Termination is NOT proved (it holds only with probability 1)."""
+
+    def make(I_, env, _):
+        which = I_.choose(2, "acc-none-or-points")
+        for nm, mk in extra_vars.items():
+            env.vars[nm] = mk()
+        if which == 0:
+            env.vars[var] = None
+            env.vars[count_var] = 0
+            return
+        M = z3.Int(core.fresh_name("nacc"))
+        I_.ctx.assume(M >= 0)
+        nm = core.fresh_name(f"{var}_acc")
+        f = z3.Function(nm, z3.IntSort(), z3.IntSort(), z3.RealSort())
+        ii = cur_i(env)
+
+        def fn(idx):
+            r = zint(idx[0][0])
+            row = [f(r, z3.IntVal(c)) for c in range(ncols)]
+            I_.ctx.axiom(z3.Implies(z3.And(r >= 0, r < M), P(ii, row)))
+            c = idx[1][0] if ncols != 1 else 0
+            return core.select_comp(c, ncols, [(lambda x=x: x) for x in row])
+
+        t = Tensor(STensor([Dim([M]), Dim([ncols])], fn, "real", nm))
+        sp = None
+        for key, qn in space_keys:
+            s1 = S.new(qn, key)
+            sp = s1 if sp is None else I_.binop(ast.Mult(), sp, s1)
+        env.vars[var] = I_.instantiate(I_.repo.find(POINTS), [t, sp], {})
+        env.vars[count_var] = Sym(M, "int")
+
+    def check(I_, env, _, tag):
+        v = env.vars.get(var, "<unset>")
+        cnt = env.vars.get(count_var, "<unset>")
+        if v is None:
+            S.ensure(f"{label}/{tag}:count-zero-when-empty", zint(cnt) == 0, kind="inv")
+            return
+        isp = v != "<unset>" and hasattr(v, "f") and "_t" in v.f
+        S.ensure(f"{label}/{tag}:accumulator-is-a-point-set", isp, kind="inv")
+        if not isp:
+            return
+        t = v.f["_t"].val
+        ok = t.rank == 2 and t.shape[1].concrete() == ncols
+        S.ensure(f"{label}/{tag}:columns", ok, kind="inv")
+        if not ok:
+            return
+        S.ensure(f"{label}/{tag}:count-equals-rows", zint(cnt) == t.shape[0].size_term(), kind="inv")
+        S.ensure(f"{label}/{tag}:space", list(v.f["space"].native.keys()) == [k for k, _ in space_keys], kind="inv")
+        ii = cur_i(env)
+        S.forall(f"{label}/{tag}:every-kept-row-passes-filter-and-lies-in-the-domain", t, lambda q: P(ii, [zreal(t.at([q[0], (c,) if ncols != 1 else ()])) for c in range(ncols)]), kind="inv")
+
+    return LoopSpec(make, check, modifies=[var, count_var] + list(extra_vars), label=label)
+
+
+for _prop in ("C01", "C02"):
+    def _rf(S, _prop=_prop):
+        """RandomUniformSampler with n_points AND a filter: nested loops under contract.
+        post (partial correctness): exactly n rows per parameter row, all passing the filter, inside the domain at
+        their own parameter row and carrying it; or RuntimeError when 20 rounds found nothing (documented)"""
+        su = Setup(S, True, True)
+        flt = RowFn("keep", ["x"], 1, {"x": 2}, dtype="bool")
+
+        def Pk(k, row):
+            tk = zreal(su.T.val.at([(k,), ()]))
+            return z3.And(su.dom.in_pred(row[:2], [tk]), row[2] == tk, flt.value_terms(row[:2])[0])
+
+        fq = RUS + "._sample_n_points_with_filter"
+        S.loop(fq, 0, acc_points_loop(S, "sample_points", [("x", R2), ("t", R1)], su.n, 3, lambda k, j, row: Pk(k, row), "parameter-loop"))
+        S.loop(fq, 1, filtered_points_loop(S, "new_sample_points", "num_of_new_points", {"iterations": lambda: S.int(core.fresh_name("iters"), 0), "new_points": lambda: None}, [("x", R2), ("t", R1)], 3, Pk, "rejection-loop", lambda env: zint(env.lookup("i")[1])))
+        smp = S.new(RUS, su.dom.obj, n_points=su.n, filter_fn=flt)
+        out = S.outcome(lambda: S.method(smp, "sample_points", su.params))
+        if out[0] == "raise":
+            S.ensure("only-the-documented-give-up-error", out[1] == "RuntimeError")
+            return
+        pts = out[1]
+        su.check(S, _prop, pts)
+        t = tensor_of(pts)
+        if _prop == "C01" and t.rank == 2 and len(t.shape[0].factors) == 2:
+            S.forall("every-returned-row-passes-the-filter", t, lambda q: flt.value_terms([zreal(t.at([q[0], (c,)])) for c in range(2)])[0])
+    _rf.__name__ = "random_uniform_sampler_with_filter"
+    scenario(_prop, [RUS + "._sample_n_points_with_filter", RUS + "._sample_points_with_filter", PS + "._apply_filter", PS + "._cut_tensor_to_length_n", PS + "._check_iteration_number", PS + "._sample_for_ith_param"], configs=["dep/K"])(_rf)
